@@ -521,6 +521,14 @@ def diff(self, axis=-1, scheme="backward", keepaxis=False, n=1):
     obj, idx, name = _deal_with_axis(self, axis)
 
     # Recursive call if n > 1
+    if n > 1 and keepaxis and scheme in ("forward", "backward"):
+        # the n-th difference in the values' own arithmetic (as numpy.diff does: unsigned integers wrap
+        # around, booleans are compared), padded with NaNs afterwards - not after every single pass
+        result = obj.diff(n=n, axis=idx, scheme=scheme, keepaxis=False).values
+        for i in range(obj.shape[idx] - result.shape[idx]):
+            result = _append_nans(result, axis=idx, first=(scheme == "backward"))
+        return obj._constructor(result, [ax.copy() for ax in obj.axes], **obj.attrs)
+
     if n > 1:
         obj = obj.diff(n=n-1, axis=idx, scheme=scheme, keepaxis=keepaxis)
         n = 1
